@@ -29,7 +29,7 @@ def _work(args):
     events = []
     new_states = {}
     eid = start_id
-    for blob in blobs:
+    for blob, prebroken in blobs:
         U = pickle.loads(blob)
         pre = graph.project(U, obs=False)
         pre_key = graph.state_key(pre)
@@ -42,7 +42,7 @@ def _work(args):
             obs = post.pop("obs")
             key = graph.state_key(post)
             ev = {"id": eid, "pre": pre, "act": a, "out": out, "ret": -1 if ret is None else ret,
-                  "same": key == pre_key, "pk": pre_key}
+                  "same": key == pre_key, "pk": pre_key, "prebroken": prebroken}
             if key != pre_key:
                 ev["post"] = post
                 ev["obs"] = obs
@@ -63,10 +63,19 @@ def _work(args):
     drifts = [(byid[i], c) for i, c in j["fails"] if c.startswith("DRIFT")]
     # a state is expanded later unless EVERY call that produced it left the graph itself ill-formed
     # ... nor the states left behind by a rejected multi-argument constructor (known finding KF-C15-ctor-partial)
-    broken = {e["id"] for e, c in fails if c in CORE_BREAKING or (e["act"]["name"] == "New" and c == "C15.unchanged")}
+    broken = {e["id"] for e, c in fails if c in CORE_BREAKING}
+    # the states left behind by a rejected multi-argument constructor (known finding KF-C15-ctor-partial) are
+    # not explored at all
+    kf = {e["id"] for e, c in fails if e["act"]["name"] == "New" and c == "C15.unchanged"}
+    for key in [k for k, rec in new_states.items() if all(i in kf for i in rec[1])]:
+        del new_states[key]
+    # (such states ARE expanded, flagged `prebroken`: only the state clauses are judged from there on, so that
+    # a violation of another property further down the history is still found)
     for key, rec in new_states.items():
-        good = [i for i in rec[1] if i not in broken]
-        rec[1] = good[0] if good else None
+        rec[1] = [i for i in rec[1] if i not in kf]
+        good = [i for i in rec[1] if i not in broken and not byid[i]["prebroken"]]
+        rec.append(not good)
+        rec[1] = good[0] if good else rec[1][0]
     samples = [e for e in events if nontrivial(e)][:2]
     return {"n": len(events), "nontrivial": sum(1 for e in events if nontrivial(e)), "fails": fails,
             "ndrift": len(drifts), "drifts": drifts[:3], "new": new_states, "samples": samples,
@@ -109,7 +118,7 @@ def run(ids, W, L=2, level=2, max_levels=99, max_states=10 ** 9, jobs=16, log=No
     C = consts(ids, W, U0.prio)
     g0 = graph.project(U0, obs=False)
     seen = {graph.state_key(g0)}
-    frontier = [pickle.dumps(U0)]
+    frontier = [(pickle.dumps(U0), False)]
     res = Result()
     res.parent = {graph.state_key(g0): None}
     res.alphabet = len(alphabet)
@@ -151,8 +160,8 @@ def run(ids, W, L=2, level=2, max_levels=99, max_states=10 ** 9, jobs=16, log=No
                 for k, v in r["new"].items():
                     if k in seen:
                         continue
-                    if k not in cand or (cand[k][1] is None and v[1] is not None) or \
-                            (v[1] is not None and cand[k][1] is not None and v[1] < cand[k][1]):
+                    # prefer a well-formed way of reaching the state; among equals the earliest event
+                    if k not in cand or (cand[k][4] and not v[4]) or (cand[k][4] == v[4] and v[1] < cand[k][1]):
                         cand[k] = v
             res.events += nev
             if log:
@@ -165,20 +174,18 @@ def run(ids, W, L=2, level=2, max_levels=99, max_states=10 ** 9, jobs=16, log=No
                 truncated = True
                 break
             frontier = []
-            for k in sorted(cand, key=lambda k: (cand[k][1] is None, cand[k][1] or 0)):
-                blob, via, pk, a = cand[k]
-                if via is None:
-                    continue
+            for k in sorted(cand, key=lambda k: (cand[k][4], cand[k][1])):
+                blob, via, pk, a, prebroken = cand[k]
                 if len(seen) >= max_states:
                     truncated = True
                     break
                 seen.add(k)
                 res.parent[k] = (pk, a)
-                frontier.append(blob)
+                frontier.append((blob, prebroken))
             if frontier_cap and len(frontier) > frontier_cap:
                 truncated = True
                 frontier = rng.sample(frontier, frontier_cap)
-        res.complete = (not frontier) and not truncated and not res.fails
+        res.complete = (not frontier) and not truncated
     finally:
         pool.close()
         pool.terminate()
